@@ -164,6 +164,253 @@ def run(repo: Repo, chk: Check) -> None:
     extension_tables(repo, chk)
     replication_guards(repo, chk)
     shift_packing(repo, chk)
+    per_streamer_freshness(repo, chk)
+    bypass_bits(repo, chk)
+
+
+# --------------------------------------------------------------------------- per-streamer quantities are computed per streamer
+def _per_streamer_loop(n: ast.AST) -> bool:
+    return isinstance(n, ast.For) and "streamers" in ast.unparse(n.iter) and "streamer_names)" not in ast.unparse(n.iter).replace(" ", "")[-16:] or (
+        isinstance(n, ast.For) and "streamers" in ast.unparse(n.iter))
+
+
+def per_streamer_freshness(repo: Repo, chk: Check) -> None:
+    chk.rule(
+        "C08.per-streamer-fresh",
+        "in the value generators, a local that is computed inside a loop over the streamers (a per-streamer quantity such as the "
+        "zero-pattern flag) is, in every iteration of such a loop that reads it, assigned on every path before the read: a value "
+        "for streamer i is never derived from what another streamer's iteration left behind",
+        floor=2,
+    )
+    n_checked = 0
+    for path, qual in ((SNAX, "SNAXStreamer._generate_streamer_setup_vals"), (XDMA, "SNAXXDMAAccelerator._generate_stream_setup_vals")):
+        f = repo.func(path, qual)
+        chk.analysed(f.key)
+        loops = [n for n in ast.walk(f.node) if _per_streamer_loop(n)]
+        outer = [l for l in loops if not any(l is not o and any(l is x for x in ast.walk(o)) for o in loops)]
+        if not outer:
+            raise AnalysisError(f"{f.where}: no loop over the streamers found")
+        # names bound inside some per-streamer loop: the per-streamer quantities
+        per: set[str] = set()
+        for l in outer:
+            for n in ast.walk(l):
+                if isinstance(n, ast.Name) and isinstance(n.ctx, ast.Store):
+                    per.add(n.id)
+        problems: list[tuple[int, str]] = []
+
+        def reads(e: ast.AST, defined: set[str], bound: set[str]) -> None:
+            """report reads of per-streamer names that are not definitely assigned; walrus targets become defined in evaluation order"""
+            if isinstance(e, ast.NamedExpr):
+                reads(e.value, defined, bound)
+                defined.add(e.target.id)
+                return
+            if isinstance(e, (ast.ListComp, ast.SetComp, ast.GeneratorExp, ast.DictComp)):
+                inner = set(bound)
+                for g in e.generators:
+                    reads(g.iter, defined, inner)
+                    inner |= {x.id for x in ast.walk(g.target) if isinstance(x, ast.Name)}
+                    for c in g.ifs:
+                        reads(c, defined, inner)
+                for part in ([e.key, e.value] if isinstance(e, ast.DictComp) else [e.elt]):
+                    reads(part, defined, inner)
+                return
+            if isinstance(e, ast.Lambda):
+                return
+            if isinstance(e, ast.BoolOp):
+                # operands after the first are evaluated conditionally: what they bind is not definitely bound afterwards
+                reads(e.values[0], defined, bound)
+                for v in e.values[1:]:
+                    reads(v, set(defined), bound)
+                return
+            if isinstance(e, ast.IfExp):
+                reads(e.test, defined, bound)
+                reads(e.body, set(defined), bound)
+                reads(e.orelse, set(defined), bound)
+                return
+            if isinstance(e, ast.Name) and isinstance(e.ctx, ast.Load) and e.id in per and e.id not in defined and e.id not in bound:
+                problems.append((e.lineno, e.id))
+            for c in ast.iter_child_nodes(e):
+                reads(c, defined, bound)
+
+        def true_binds(t: ast.expr) -> set[str]:
+            """names an assignment expression binds whenever the test is true (`a and f(w := x)`: w is bound in the then-branch)"""
+            if isinstance(t, ast.BoolOp):
+                if isinstance(t.op, ast.And):
+                    out_: set[str] = set()
+                    for v in t.values:
+                        out_ |= true_binds(v)
+                    return out_
+                return true_binds(t.values[0])
+            if isinstance(t, ast.UnaryOp) and isinstance(t.op, ast.Not):
+                return set()
+            if isinstance(t, ast.IfExp):
+                return true_binds(t.test)
+            out_ = set()
+            for n in ast.walk(t):
+                if isinstance(n, ast.NamedExpr) and isinstance(n.target, ast.Name):
+                    out_.add(n.target.id)
+            return out_
+
+        def block(stmts: list[ast.stmt], defined: set[str]) -> tuple[set[str], bool]:
+            """definite assignment through a statement list; returns (defined at the end, whether the end is reachable)"""
+            for st in stmts:
+                if isinstance(st, (ast.Assign, ast.AnnAssign)):
+                    if st.value is not None:
+                        reads(st.value, defined, set())
+                    tg = st.targets if isinstance(st, ast.Assign) else [st.target]
+                    for t in tg:
+                        if isinstance(t, ast.Name):
+                            if st.value is not None:
+                                defined.add(t.id)
+                        else:
+                            reads(t, defined, set())
+                            for x in ast.walk(t):
+                                if isinstance(x, ast.Name) and isinstance(x.ctx, ast.Store):
+                                    defined.add(x.id)
+                elif isinstance(st, ast.AugAssign):
+                    reads(st.value, defined, set())
+                    if isinstance(st.target, ast.Name):
+                        if st.target.id in per and st.target.id not in defined:
+                            problems.append((st.lineno, st.target.id))
+                    else:
+                        reads(st.target, defined, set())
+                elif isinstance(st, ast.If):
+                    reads(st.test, defined, set())
+                    da, ra = block(st.body, set(defined) | true_binds(st.test))
+                    db, rb = block(st.orelse, set(defined))
+                    if ra and rb:
+                        defined |= (da & db)
+                    elif ra:
+                        defined |= da
+                    elif rb:
+                        defined |= db
+                    else:
+                        return defined, False
+                elif isinstance(st, ast.For):
+                    reads(st.iter, defined, set())
+                    inner = set(defined) | {x.id for x in ast.walk(st.target) if isinstance(x, ast.Name)}
+                    block(st.body, inner)  # may run zero times: nothing it binds is definitely bound afterwards
+                    block(st.orelse, set(defined))
+                elif isinstance(st, ast.While):
+                    reads(st.test, defined, set())
+                    block(st.body, set(defined))
+                elif isinstance(st, (ast.Return, ast.Raise, ast.Continue, ast.Break)):
+                    for c in ast.iter_child_nodes(st):
+                        reads(c, defined, set())
+                    return defined, False
+                elif isinstance(st, ast.Assert):
+                    reads(st.test, defined, set())
+                else:
+                    for c in ast.iter_child_nodes(st):
+                        if isinstance(c, ast.expr):
+                            reads(c, defined, set())
+                        elif isinstance(c, ast.stmt):
+                            block([c], set(defined))
+            return defined, True
+
+        for l in outer:
+            start = {x.id for x in ast.walk(l.target) if isinstance(x, ast.Name)}
+            block(l.body, set(start))
+        seen: set[str] = set()
+        for line, name in sorted(problems):
+            if name in seen:
+                continue
+            seen.add(name)
+            chk.bad("C08.per-streamer-fresh", f"{f.key}:{name}", f"{path}:{line}",
+                    f"`{name}` is computed inside a loop over the streamers but read here in an iteration that has not (on every path) assigned it: "
+                    "the value for this streamer is what another streamer's iteration left behind")
+        n_checked += 1
+        if not problems:
+            chk.ok("C08.per-streamer-fresh", f"{f.key}", f.where,
+                   f"all {len(per)} per-streamer locals ({', '.join(sorted(per))[:120]}) are assigned in the iteration that reads them")
+    if n_checked < 2:
+        raise AnalysisError("per-streamer freshness: value generators not found")
+
+
+# --------------------------------------------------------------------------- bypass mask: bit k = k-th extension
+def bypass_bits(repo: Repo, chk: Check) -> None:
+    chk.rule(
+        "C08.bypass-bit",
+        "xDMA: the bit set in <streamer>_bypass for an extension is that extension's position among the streamer's EXTENSIONS (the order "
+        "in which their CSR blocks are declared), counted per streamer from 0 and advanced once per extension whether or not the kernel "
+        "is supported - not its position in the whole option list",
+        floor=1,
+    )
+    f, fl = flow_of(repo, chk, XDMA, "SNAXXDMAAccelerator._generate_stream_setup_vals")
+    sets = []
+    for s in fl.stmts(ast.AugAssign):
+        if not s.reachable or not isinstance(s.node.op, (ast.Add, ast.BitOr)):
+            continue
+        m = norm.any_match(["2 ** $i", "1 << $i"], s.node.value)
+        if m is not None and isinstance(m["i"], ast.Name):
+            sets.append((s, m["i"].id))
+    if not sets:
+        # a comprehension form: sum(2 ** k for k, e in enumerate(<extensions>) if ..)
+        for s in fl.sites:
+            if s.node is s.stmt and s.reachable and isinstance(s.stmt, (ast.Assign, ast.AnnAssign)) and s.stmt.value is not None:
+                for comp in [c for c in ast.walk(s.stmt.value) if isinstance(c, (ast.GeneratorExp, ast.ListComp))]:
+                    m = norm.any_match(["2 ** $i", "1 << $i"], comp.elt)
+                    if m is not None and isinstance(m["i"], ast.Name) and len(comp.generators) == 1:
+                        g_ = comp.generators[0]
+                        ok = _enumerates_extensions_only(fl, s, g_.target, g_.iter, m["i"].id)
+                        chk.result(ok, "C08.bypass-bit", f"{f.key}:position", s.where(),
+                                   "the bit position enumerates the streamer's extensions only",
+                                   "the bypass bit of an extension is its index in the whole option list, not among the extensions: with a plain option "
+                                   "listed before it, the bit selects another extension's (or no) CSR block")
+                        return
+        raise AnalysisError(f"{f.where}: the statement setting a bypass bit (`bypass += 2 ** i`) was not found")
+    for s, iv in sets:
+        lp = [l for l in s.loops if isinstance(l, ast.For)]
+        ok = False
+        why = "the bit position is not a per-streamer extension counter"
+        # (b) the index of an enumeration over the extensions only
+        for l in lp:
+            if isinstance(l.target, ast.Tuple) and len(l.target.elts) == 2 and isinstance(l.target.elts[0], ast.Name) and l.target.elts[0].id == iv:
+                ok = _enumerates_extensions_only(fl, s, l.target, l.iter, iv)
+                if not ok:
+                    why = f"the bit position is the index in `{ast.unparse(l.iter)[:60]}`, which also counts options that are not extensions"
+        # (a) a counter: `i = 0` per streamer, `i += 1` once per extension
+        incs = [x for x in fl.stmts(ast.AugAssign) if x.reachable and isinstance(x.node.target, ast.Name) and x.node.target.id == iv and isinstance(x.node.op, ast.Add)
+                and isinstance(x.node.value, ast.Constant) and x.node.value.value == 1]
+        inits = [x for x in fl.stmts(ast.Assign) if x.reachable and isinstance(x.node.targets[0], ast.Name) and x.node.targets[0].id == iv
+                 and isinstance(x.node.value, ast.Constant) and x.node.value.value == 0 and any(_per_streamer_loop(l) for l in x.loops)]
+        if incs and inits and not ok:
+            good = True
+            for x in incs:
+                opt_loops = [l for l in x.loops if isinstance(l, ast.For) and norm.any_match(["$s.opts"], l.iter) is not None]
+                if not opt_loops or not isinstance(opt_loops[-1].target, ast.Name):
+                    good = False
+                    continue
+                ev = opt_loops[-1].target.id
+                head = next((h for h in fl.stmts(ast.For) if h.node is opt_loops[-1]), None)
+                base = set(head.fact_texts) if head is not None else set()
+                new = [fa for fa in x.facts if fa.kind == "atom" and fa.text not in base]
+                is_ext = [fa for fa in new if norm.any_match([f"isinstance({ev}, StreamerExtension)"], fa.expr) is not None]
+                others = [fa for fa in new if fa not in is_ext]
+                if not is_ext or others:
+                    good = False
+                    why = f"the counter is advanced under {[fa.text[:60] for fa in new]}; expected exactly `isinstance({ev}, StreamerExtension)`"
+            ok = good
+        chk.result(ok, "C08.bypass-bit", f"{f.key}:position", s.where(),
+                   "the bit position counts the streamer's extensions only, once per extension",
+                   f"{why}: with a plain option listed before an extension (or an unsupported kernel in between) the bit selects another extension's CSR block")
+
+
+def _enumerates_extensions_only(fl: Flow, site: Site, target: ast.expr, it: ast.expr, iv: str) -> bool:
+    it = site.expand(it)
+    if not (isinstance(it, ast.Call) and callee_name(it) == "enumerate" and it.args):
+        return False
+    dom = norm.primary(it.args[0])
+    for _ in range(3):
+        if isinstance(dom, ast.Call) and isinstance(dom.func, ast.Name) and dom.func.id in ("list", "tuple") and len(dom.args) == 1:
+            dom = dom.args[0]
+    if isinstance(dom, (ast.ListComp, ast.GeneratorExp)) and len(dom.generators) == 1 and isinstance(dom.generators[0].target, ast.Name):
+        g_ = dom.generators[0]
+        v = g_.target.id
+        conds = [a for c in g_.ifs for a in norm.atoms(c, True)]
+        return isinstance(dom.elt, ast.Name) and dom.elt.id == v and norm.any_match(["$s.opts"], g_.iter) is not None and any(
+            norm.any_match([f"isinstance({v}, StreamerExtension)"], c) is not None for c in conds)
+    return False
 
 
 # --------------------------------------------------------------------------- streamer layouts
